@@ -196,7 +196,33 @@ static bool form_applies(int form, const std::string &sep, bool utf8_clean)
     return true;
 }
 
+static void check_split_impl(Ctx &c, const std::string &subj, const std::string &sep, uint64_t max, bool &nt, bool utf8_clean);
+// calls that omit max_splits and the case mode: unlimited, case-sensitive
+static void check_split_defaults(Ctx &c, const std::string &subj, const std::string &sep, bool utf8_clean)
+{
+    static vf::GuardArena ga;
+    ST::string s = mkst(subj), ss = mkst(sep);
+    const char *cz = ga.place(sep.c_str(), sep.size() + 1);
+    SV want = refs::split(subj, sep, UINT64_MAX, false);
+    for (int form = 0; form < NFORMS; ++form) {
+        if (!form_applies(form, sep, utf8_clean)) continue;
+        Res r = run_vec([&] {
+            return form == F_CHAR ? s.split(sep[0]) : form == F_CSTR ? s.split(cz) : form == F_STR ? s.split(ss) : s.split(reinterpret_cast<const char8_t *>(cz));
+        });
+        VF_COUNT("ops");
+        VF_COUNT("validated");
+        if (!r.o.ok() || r.pieces != want)
+            c.fail(strf("split(%s):default-arguments-differ-from-(SIZE_MAX,case_sensitive)", FORMN[form]),
+                   strf("split(%s) [%s form, defaults] on %s %s; expected %s", vf::vis(sep).c_str(), FORMN[form], vf::vis(subj).c_str(),
+                        r.o.ok() ? ("returned " + vis_list(r.pieces)).c_str() : ("ended with " + r.why()).c_str(), vis_list(want).c_str()));
+    }
+}
 static void check_split(Ctx &c, const std::string &subj, const std::string &sep, uint64_t max, bool &nt, bool utf8_clean = false)
+{
+    check_split_impl(c, subj, sep, max, nt, utf8_clean);
+    if (max == UINT64_MAX && !sep.empty()) check_split_defaults(c, subj, sep, utf8_clean);
+}
+static void check_split_impl(Ctx &c, const std::string &subj, const std::string &sep, uint64_t max, bool &nt, bool utf8_clean)
 {
     static vf::GuardArena ga;
     ST::string s = mkst(subj), ss = mkst(sep);
@@ -244,10 +270,12 @@ static void check_split(Ctx &c, const std::string &subj, const std::string &sep,
 }
 
 // ---------------------------------------------------------------- replace
-enum RForm { R_SS, R_CC, R_SC, R_CS, R_UU, R_SU, R_US, NRFORMS };
-static const unsigned ALL_RFORMS = 127;
+enum RForm { R_SS, R_CC, R_SC, R_CS, R_UU, R_SU, R_US, R_SS_V, R_CC_V, R_SC_V, R_CS_V, NRFORMS };
+static const unsigned ALL_RFORMS = 2047;
 static const char *RFORMN[NRFORMS] = {"ST::string,ST::string", "const char*,const char*", "ST::string,const char*", "const char*,ST::string",
-                                      "const char8_t*,const char8_t*", "ST::string,const char8_t*", "const char8_t*,ST::string"};
+                                      "const char8_t*,const char8_t*", "ST::string,const char8_t*", "const char8_t*,ST::string",
+                                      "ST::string,ST::string,cs,validation", "const char*,const char*,cs,validation", "ST::string,const char*,cs,validation",
+                                      "const char*,ST::string,cs,validation"};
 
 static ST::string call_replace(int form, const ST::string &s, const ST::string &fs, const char *fz, const ST::string &ts, const char *tz, bool ci)
 {
@@ -259,7 +287,12 @@ static ST::string call_replace(int form, const ST::string &s, const ST::string &
     case R_CS: return s.replace(fz, ts, cs);
     case R_UU: return s.replace(reinterpret_cast<const char8_t *>(fz), reinterpret_cast<const char8_t *>(tz), cs);
     case R_SU: return s.replace(fs, reinterpret_cast<const char8_t *>(tz), cs);
-    default: return s.replace(reinterpret_cast<const char8_t *>(fz), ts, cs);
+    case R_US: return s.replace(reinterpret_cast<const char8_t *>(fz), ts, cs);
+    // the overloads with an explicit validation mode (the pattern / replacement are valid here, so the mode changes nothing)
+    case R_SS_V: return s.replace(fs, ts, cs, ST::check_validity);
+    case R_CC_V: return s.replace(fz, tz, cs, ST::substitute_invalid);
+    case R_SC_V: return s.replace(fs, tz, cs, ST::check_validity);
+    default: return s.replace(fz, ts, cs, ST::assume_valid);
     }
 }
 static std::string replace_verdict(const Res &r, const std::string &subj, const std::string &from, const std::string &to, size_t k, const std::string &want)
@@ -287,8 +320,8 @@ static void check_replace(Ctx &c, const std::string &subj, const std::string &fr
     bool ss_failed[2] = {false, false};
     for (int form = 0; form < NRFORMS; ++form) {  // R_SS first
         static_assert(R_SS == 0, "the forwarding target must be checked first");
-        if ((form == R_CC || form == R_CS || form == R_UU || form == R_US) && !cstr_from_ok) continue;
-        if ((form == R_CC || form == R_SC || form == R_UU || form == R_SU) && !cstr_to_ok) continue;
+        if ((form == R_CC || form == R_CS || form == R_UU || form == R_US || form == R_CC_V || form == R_CS_V) && !cstr_from_ok) continue;
+        if ((form == R_CC || form == R_SC || form == R_UU || form == R_SU || form == R_CC_V || form == R_SC_V) && !cstr_to_ok) continue;
         if (!(forms >> form & 1)) continue;
         for (int ci = 0; ci < 2; ++ci) {
             const size_t k = ks[ci];
@@ -406,7 +439,7 @@ static void build(vf::Plan &plan, const vf::Opts &o)
     const std::string SA("abA,\0", 5);
     const std::string RA("ab,", 3);
     const uint64_t nto = vf::seq_count(RA.size(), 3);
-    const unsigned BOTH = 1u << R_SS | 1u << R_CC | 1u << R_UU;
+    const unsigned BOTH = 1u << R_SS | 1u << R_CC | 1u << R_UU | 1u << R_SS_V;
 
     // ---- split
     auto split_stage = [&](unsigned L, unsigned SEPL) {
